@@ -38,6 +38,7 @@ class Connection:
     if self.is_connected():
       raise gfapy.RuntimeError(
         "Line {} is already connected to a GFA instance".format(self))
+    self._check_name_is_string()
     self._check_self_reference()
     previous = gfa._search_duplicate(self)
     if previous:
@@ -55,6 +56,22 @@ class Connection:
       self._initialize_references()
       self._gfa._register_line(self)
       return None
+
+  def _check_name_is_string(self):
+    """
+    Checks, before anything is changed, that the identifier under which the
+    line is registered is a string (at vlevel 0 an ID tag of a link can be
+    given with any datatype).
+    """
+    if self.record_type not in gfapy.lines.finders.Finders.RECORDS_WITH_NAME:
+      return
+    name = self.get("name")
+    if name is None or gfapy.is_placeholder(name) or isinstance(name, str):
+      return
+    raise gfapy.TypeError(
+      "Line: {}\n".format(str(self))+
+      "The identifier of a line must be a string, "+
+      "found: {}".format(repr(name)))
 
   def _check_self_reference(self):
     """
